@@ -214,13 +214,13 @@ m("c02-f10-revert", "C02", "daemon/runners/trio_runner.py", "            try:\n 
 m("c02-f11-revert", "C02", "daemon/runners/asyncio_runner.py", "        if self._stopped.is_set():\n            # nobody will cancel", "        if False:\n            # nobody will cancel")
 # ---- C03
 m("c03-started-never-set", "C03", "daemon/runners/service.py", "            self._started = True\n", "            pass\n")
-m("c03-kwargs-dropped", "C03", "daemon/runners/service.py", "    def adopt(self, payload, *args, flavour: ModuleType, **kwargs):\n        \"\"\"\n        Concurrently run ``payload`` in the background\n\n        If ``*args*`` and/or ``**kwargs`` are provided, pass them to ``payload``\n        upon execution.\n        \"\"\"\n        if args or kwargs:\n            payload = functools.partial(payload, *args, **kwargs)", "    def adopt(self, payload, *args, flavour: ModuleType, **kwargs):\n        if args or kwargs:\n            payload = functools.partial(payload, *args)")
+m("c03-kwargs-dropped", "C03", "daemon/runners/service.py", "    def adopt(self, payload, /, *args, flavour: ModuleType, **kwargs):\n        \"\"\"\n        Concurrently run ``payload`` in the background\n\n        If ``*args*`` and/or ``**kwargs`` are provided, pass them to ``payload``\n        upon execution.\n        \"\"\"\n        if args or kwargs:\n            payload = functools.partial(payload, *args, **kwargs)", "    def adopt(self, payload, /, *args, flavour: ModuleType, **kwargs):\n        if args or kwargs:\n            payload = functools.partial(payload, *args)")
 m("c03-adopt-waits", "C03", "daemon/runners/service.py", "        self._meta_runner.register_payload(payload, flavour=flavour)", "        if flavour is threading and self.running.is_set():\n            self._meta_runner.run_payload(payload, flavour=flavour)\n        else:\n            self._meta_runner.register_payload(payload, flavour=flavour)")
 m("c03-queue-first-only", "C03", "daemon/runners/meta_runner.py", "            self.register_payload(*queue, flavour=flavour)", "            self.register_payload(*queue[:3], flavour=flavour)")
 m("c03-f2-revert", "C03", "daemon/runners/trio_runner.py", "        try:\n            self._submit_tasks.send_nowait(payload)\n        except trio.ClosedResourceError:\n            # the channel is closed while trio still finishes the cleanup of payloads\n            self._logger.warning(f\"discarding payload {payload} during shutdown\")", "        self._submit_tasks.send_nowait(payload)")
 m("c03-services-always-trio", "C03", "daemon/runners/service.py", "            runner.register_payload(service.run, flavour=self.flavour)", "            runner.register_payload(service.run, flavour=self.flavour if self.flavour is not __import__('asyncio') else trio)")
 # ---- C10
-m("c10-execute-kwargs-dropped", "C10", "daemon/runners/service.py", "    def execute(self, payload, *args, flavour: ModuleType, **kwargs):\n        \"\"\"\n        Synchronously run ``payload`` and provide its output\n\n        If ``*args*`` and/or ``**kwargs`` are provided, pass them to ``payload``\n        upon execution.\n        \"\"\"\n        if args or kwargs:\n            payload = functools.partial(payload, *args, **kwargs)", "    def execute(self, payload, *args, flavour: ModuleType, **kwargs):\n        if args or kwargs:\n            payload = functools.partial(payload, *args)")
+m("c10-execute-kwargs-dropped", "C10", "daemon/runners/service.py", "    def execute(self, payload, /, *args, flavour: ModuleType, **kwargs):\n        \"\"\"\n        Synchronously run ``payload`` and provide its output\n\n        If ``*args*`` and/or ``**kwargs`` are provided, pass them to ``payload``\n        upon execution.\n        \"\"\"\n        if args or kwargs:\n            payload = functools.partial(payload, *args, **kwargs)", "    def execute(self, payload, /, *args, flavour: ModuleType, **kwargs):\n        if args or kwargs:\n            payload = functools.partial(payload, *args)")
 m("c10-thread-result-copied", "C10", "daemon/runners/thread_runner.py", "        return payload()", "        import copy\n        return copy.copy(payload())")
 m("c10-f8-revert", "C10", "daemon/runners/trio_runner.py", "            self._trio_token.run_sync_soon(self._submit_payload, payload)", "            trio.from_thread.run(self._submit_tasks.send, payload, trio_token=self._trio_token)")
 m("c10-asyncio-exception-as-failure", "C10", "daemon/runners/asyncio_runner.py", "        future = asyncio.run_coroutine_threadsafe(payload(), self.asyncio_loop)\n        return future.result()", "        future = asyncio.run_coroutine_threadsafe(payload(), self.asyncio_loop)\n        try:\n            return future.result()\n        except LookupError as err:\n            self.asyncio_loop.call_soon_threadsafe(self._payload_failure.set_exception, err)\n            raise")
@@ -242,3 +242,9 @@ m("c18-check-skips-sequences", "C18", "daemon/core/config.py", "                
 m("c03-f13-revert", "C03", "daemon/runners/service.py", "            if _service_declaration(cls) is __new_service__:", "            if True:")
 # (F14 has no revert mutant: the lost interrupt shows in about one run of 300 on a loaded machine only; its scenario is kept
 #  under regressions/C02 and was stressed by hand, 480 runs, when the repair was made)
+
+# ---- reverts of F15-F18
+m("c01-f15-revert", "C01", "daemon/runners/asyncio_runner.py", "            if isinstance(failure, StopIteration):", "            if False:")
+m("c04-f17-revert", "C04", "interfaces/_partial.py", "def __init__(self, ctor: Type[C_co], /, *args, __leaf__, **kwargs):", "def __init__(self, ctor: Type[C_co], *args, __leaf__, **kwargs):")
+m("c10-f18-revert", "C10", "daemon/runners/service.py", "def execute(self, payload, /, *args, flavour: ModuleType, **kwargs):", "def execute(self, payload, *args, flavour: ModuleType, **kwargs):")
+m("c03-f18-revert", "C03", "daemon/runners/service.py", "def adopt(self, payload, /, *args, flavour: ModuleType, **kwargs):", "def adopt(self, payload, *args, flavour: ModuleType, **kwargs):")
